@@ -141,3 +141,15 @@ impl Add<usize> for DepthFirstNumber {
         }
     }
 }
+
+#[cfg(feature = "verif-hooks")]
+impl<K, V> SearchGraph<K, V>
+where
+    K: Hash + Eq + Debug + Clone,
+    V: Debug + Clone,
+{
+    /// Verification hook: number of in-progress nodes.
+    pub(super) fn verif_len(&self) -> usize {
+        self.nodes.len()
+    }
+}
